@@ -331,9 +331,33 @@ def case_key(case: Any) -> str:
     return hashlib.sha1(json.dumps(case, sort_keys=True, default=str).encode()).hexdigest()
 
 
+_CUR_BATCH = None
+
+
+def _impl_idx(i):
+    return _CUR_BATCH.impl(_CUR_BATCH.cases[i])
+
+
+def run_impl(b: "Batch") -> list:
+    """run the implementation on every case; in parallel worker processes (fork) for large batches.
+    The implementation functions take no randomness from the harness, so the results do not depend
+    on the scheduling."""
+    global _CUR_BATCH
+    n = len(b.cases)
+    if n < 64 or os.environ.get("VERIF_SERIAL") == "1" or not getattr(b, "parallel", True):
+        return [b.impl(c) for c in b.cases]
+    import multiprocessing as mp
+    _CUR_BATCH = b
+    try:
+        with mp.get_context("fork").Pool(min(NPROC, 16)) as pool:
+            return pool.map(_impl_idx, range(n), chunksize=max(1, n // (NPROC * 8)))
+    finally:
+        _CUR_BATCH = None
+
+
 def run_batch(ctx: Ctx, b: Batch) -> None:
     t0 = time.time()
-    results = [b.impl(c) for c in b.cases]
+    results = run_impl(b)
     t_impl = time.time() - t0
     lits = [(b.enc_in(c), b.enc_out(c, r)) for c, r in zip(b.cases, results)]
     mism, t_coq = coq_mismatches(f"{ctx.prop}_{b.name}", b.header, b.run, b.eqb, b.ty_in, b.ty_out, lits, shard=b.shard)
